@@ -193,6 +193,7 @@ type adapter struct {
 	headUnsupported bool
 	lazyInputs      bool // documented: a later input is not read before the earlier one is exhausted
 	asyncStop       bool // Stop hands the remaining inputs to a goroutine (Drain)
+	quickLen        int  // quick tier: input length bound for this adapter (0 = the general bound)
 	build           func(e *env, ins []InSpec, p int) (implIter, checker)
 	open            string // aspects left open for this adapter
 }
@@ -211,9 +212,14 @@ type Case struct {
 
 type outcome struct {
 	class string // "" = conforms
-	desc  string
 	early bool
 	multi bool // an input was stopped more than once (informational)
+	// where and what (rendered by describe only when a deviation is reported)
+	op   byte
+	idx  int
+	epi  bool
+	o    obs
+	note string
 }
 
 func safely(f func() obs) (o obs) {
@@ -258,136 +264,159 @@ func needsCancel(ins []InSpec) bool {
 	return false
 }
 
-// runCase executes script (then an epilogue: read to the end, Stop, Next, Head) on a fresh adapter instance.
-func runCase(ad *adapter, ins []InSpec, p int, script string, trace *[]string) outcome {
-	e := newEnv(needsCancel(ins) || ad.asyncStop)
-	defer e.done()
-	impl, chk := ad.build(e, ins, p)
-	if e.extra != nil {
-		defer e.extra()
+// runner holds the state of one case (no closures: tens of millions of cases are executed).
+type runner struct {
+	ad        *adapter
+	e         *env
+	impl      implIter
+	chk       checker
+	trace     *[]string
+	out       outcome
+	comparing bool
+	stopped   bool
+	headValid bool
+	headID    string
+	// the call being executed (for a panic report)
+	curOp  byte
+	curIdx int
+	curEpi bool
+}
+
+func (r *runner) fail(class string, op byte, idx int, epi bool, o obs, note string) {
+	if r.out.class == "" {
+		r.out.class, r.out.op, r.out.idx, r.out.epi, r.out.o, r.out.note = class, op, idx, epi, o, note
 	}
-	var out outcome
-	fail := func(class, desc string) {
-		if out.class == "" {
-			out.class, out.desc = class, desc
+}
+
+func (o outcome) describe() string {
+	where := fmt.Sprintf("call %d (%c)", o.idx+1, o.op)
+	if o.epi {
+		where = "epilogue " + where
+	}
+	if o.op == 'S' || o.o.K == 0 {
+		return where + ": " + o.note
+	}
+	s := fmt.Sprintf("%s returned %s", where, o.o)
+	if o.note != "" {
+		s += " " + o.note
+	}
+	return s
+}
+
+func (r *runner) step(op byte, idx int, epi bool) (o obs) {
+	r.curOp, r.curIdx, r.curEpi = op, idx, epi
+	e, ad := r.e, r.ad
+	if op == 'S' {
+		r.impl.stop()
+		if r.trace != nil {
+			*r.trace = append(*r.trace, "Stop")
+		}
+		r.stopped, r.headValid = true, false
+		if ad.asyncStop {
+			waitClosed(e)
+		}
+		for i, st := range e.stats {
+			if !st.closed() {
+				r.fail("stop-leaves-input-open", op, idx, epi, obs{}, fmt.Sprintf("input %d neither stopped nor read to its end after Stop", i))
+			}
+		}
+		return obs{K: 'o'}
+	}
+	if op == 'N' {
+		o = r.impl.next()
+	} else {
+		o = r.impl.head()
+	}
+	if r.trace != nil {
+		*r.trace = append(*r.trace, string(op)+"→"+o.String())
+	}
+	if e.fired.Load() {
+		r.comparing = false // results under a cancelled context are not specified
+		return
+	}
+	if ad.lazyInputs && !r.stopped {
+		for j := 1; j < len(e.stats); j++ {
+			if e.stats[j].touched() && !e.stats[j-1].doneSeen.Load() {
+				r.fail("later-input-read-before-earlier-exhausted", op, idx, epi, obs{}, fmt.Sprintf("input %d was read although input %d has not reported Done", j, j-1))
+			}
 		}
 	}
-	comparing, stopped := true, false
-	headValid, headID := false, ""
+	if r.stopped {
+		if op == 'N' && o.K != 'd' {
+			r.fail("next-after-stop-returns-"+kindName(o.K), op, idx, epi, o, "after Stop (Iterator.Stop: any subsequent Next must return ErrIteratorDone)")
+		}
+		if op == 'H' && o.K != 'd' && !(ad.headUnsupported && o.K == 'u') {
+			r.fail("head-after-stop-returns-"+kindName(o.K), op, idx, epi, o, "after Stop (Stop terminates iteration; Head returns ErrIteratorDone if the iterator is finished)")
+		}
+		return
+	}
+	if !r.comparing {
+		return
+	}
+	// Head: "Calling Head() continuously without calling Next() will yield the same result"; "a subsequent call to
+	// Next will not miss any results".
+	if o.K == 'v' && r.headValid && o.ID != r.headID {
+		r.fail("head-not-stable", op, idx, epi, o, "although the preceding Head returned "+r.headID)
+		r.comparing = false
+		return
+	}
+	r.headValid = false
+	if op == 'H' && o.K == 'v' {
+		r.headValid, r.headID = true, o.ID
+	}
+	class, cont, early := r.chk.step(op, o)
+	if class != "" {
+		r.fail(class, op, idx, epi, o, "")
+		r.comparing = false
+		return
+	}
+	if early {
+		r.out.early = true
+	}
+	if !cont {
+		r.comparing = false
+	}
+	return
+}
+
+// runCase executes script (then an epilogue: read to the end, Stop, Next, Head) on a fresh adapter instance.
+func runCase(ad *adapter, ins []InSpec, p int, script string, trace *[]string) (out outcome) {
+	e := newEnv(needsCancel(ins) || ad.asyncStop)
+	r := runner{ad: ad, e: e, trace: trace, comparing: true}
+	defer func() {
+		if pv := recover(); pv != nil {
+			r.fail("panic", r.curOp, r.curIdx, r.curEpi, obs{}, fmt.Sprint("panic: ", pv))
+			out = r.out
+		}
+		e.done()
+	}()
+	r.impl, r.chk = ad.build(e, ins, p)
 	total := 0
 	for _, in := range ins {
 		total += len(in.Items)
 	}
-	step := func(op byte, idx int, epi bool) (o obs) {
-		where := func() string {
-			if epi {
-				return fmt.Sprintf("epilogue call %d (%c)", idx+1, op)
-			}
-			return fmt.Sprintf("call %d (%c)", idx+1, op)
-		}
-		if op == 'S' {
-			o = safely(func() obs { impl.stop(); return obs{K: 'o'} })
-			if trace != nil {
-				*trace = append(*trace, "Stop")
-			}
-			if o.K == 'p' {
-				fail("panic", where()+": "+o.ID)
-				return
-			}
-			stopped, headValid = true, false
-			if ad.asyncStop {
-				waitClosed(e)
-			}
-			for i, st := range e.stats {
-				if !st.closed() {
-					fail("stop-leaves-input-open", fmt.Sprintf("%s: input %d neither stopped nor read to its end after Stop", where(), i))
-				}
-			}
-			return
-		}
-		if op == 'N' {
-			o = safely(impl.next)
-		} else {
-			o = safely(impl.head)
-		}
-		if trace != nil {
-			*trace = append(*trace, string(op)+"→"+o.String())
-		}
-		if o.K == 'p' {
-			fail("panic", where()+": "+o.ID)
-			comparing = false
-			return
-		}
-		if e.fired.Load() {
-			comparing = false // results under a cancelled context are not specified
-			return
-		}
-		if ad.lazyInputs && !stopped {
-			for j := 1; j < len(e.stats); j++ {
-				if e.stats[j].touched() && !e.stats[j-1].doneSeen.Load() {
-					fail("later-input-read-before-earlier-exhausted", fmt.Sprintf("%s: input %d was read although input %d has not reported Done", where(), j, j-1))
-				}
-			}
-		}
-		if stopped {
-			if op == 'N' && o.K != 'd' {
-				fail("next-after-stop-returns-"+kindName(o.K), fmt.Sprintf("%s returned %s after Stop (Iterator.Stop: any subsequent Next must return ErrIteratorDone)", where(), o))
-			}
-			if op == 'H' && o.K != 'd' && !(ad.headUnsupported && o.K == 'u') {
-				fail("head-after-stop-returns-"+kindName(o.K), fmt.Sprintf("%s returned %s after Stop (Stop terminates iteration; Head returns ErrIteratorDone if the iterator is finished)", where(), o))
-			}
-			return
-		}
-		if !comparing {
-			return
-		}
-		// Head: "Calling Head() continuously without calling Next() will yield the same result"; "a subsequent call to
-		// Next will not miss any results".
-		if o.K == 'v' && headValid && o.ID != headID {
-			fail("head-not-stable", fmt.Sprintf("%s returned %s although the preceding Head returned %s", where(), o, headID))
-			comparing = false
-			return
-		}
-		headValid = false
-		if op == 'H' && o.K == 'v' {
-			headValid, headID = true, o.ID
-		}
-		class, cont, early := chk.step(op, o)
-		if class != "" {
-			fail(class, fmt.Sprintf("%s returned %s", where(), o))
-			comparing = false
-			return
-		}
-		if early {
-			out.early = true
-		}
-		if !cont {
-			comparing = false
-		}
-		return
-	}
 	for i := 0; i < len(script); i++ {
-		step(script[i], i, false)
+		r.step(script[i], i, false)
 	}
 	// epilogue
 	n := 0
-	if !stopped {
-		for k := 0; k < total+2 && comparing; k++ {
-			o := step('N', n, true)
+	if !r.stopped {
+		for k := 0; k < total+2 && r.comparing; k++ {
+			o := r.step('N', n, true)
 			n++
 			if o.K != 'v' {
 				break
 			}
 		}
-		step('S', n, true)
+		r.step('S', n, true)
 		n++
 	}
-	step('N', n, true)
-	step('H', n+1, true)
+	r.step('N', n, true)
+	r.step('H', n+1, true)
 	for _, st := range e.stats {
 		if st.stops.Load() > 1 {
-			out.multi = true
+			r.out.multi = true
 		}
 	}
-	return out
+	return r.out
 }
